@@ -421,7 +421,21 @@ def run_timescales(ctx, rng, idx):
     """implied_timescales == -lag / log(lambda) of the pipeline's matrix."""
     trajs, ns = gen_assigns(rng, small=False)
     a = R([t.copy() for t in trajs])
-    lags = sorted({int(x) for x in rng.integers(1, 5, size=2)})
+    # lag times in any order, possibly repeated, beyond single digits, as
+    # list / tuple / array / range: row i belongs to lag_times[i]
+    r = rng.random()
+    if r < 0.3:
+        lags = sorted({int(x) for x in rng.integers(1, 5, size=2)})
+    elif r < 0.45:
+        lo = int(rng.integers(1, 4))
+        lags = range(lo, lo + int(rng.integers(1, 4)))
+    else:
+        lags = [int(x) for x in rng.integers(1, 13, size=int(
+            rng.integers(1, 5)))]
+        if rng.random() < 0.5:
+            lags = sorted(lags)
+        lags = [list, tuple, np.array][int(rng.integers(0, 3))](lags)
+    ctx.seen('lag_time_forms', type(lags).__name__)
     bname = ['normalize', 'transpose'][int(rng.integers(0, 2))]
     method = getattr(builders, bname)
     sliding = bool(rng.random() < 0.5)
@@ -432,7 +446,7 @@ def run_timescales(ctx, rng, idx):
         with warnings.catch_warnings():
             warnings.simplefilter('ignore')
             exp = []
-            for lag in lags:
+            for lag in [int(x) for x in lags]:
                 C = tm.assigns_to_counts(a, lag_time=lag, max_n_states=nst,
                                          sliding_window=sliding)
                 mp, C = tm.trim_disconnected(C)
